@@ -134,25 +134,25 @@ pub fn main() -> i32 {
 
 fn finish(ctx: &Ctx, prop: &props::Prop, seed: i64) -> i32 {
     let findings = load_findings();
-    let violations = ctx.violations.lock().unwrap().clone();
-    let total_violations = ctx.violation_count.load(std::sync::atomic::Ordering::SeqCst);
+    let groups = ctx.violations.lock().unwrap().clone();
     let mut known: BTreeMap<String, (Finding, u64, Value)> = BTreeMap::new();
-    let mut unlisted: Vec<Violation> = vec![];
-    for v in &violations {
-        match findings.iter().find(|f| finding_matches(f, &ctx.property, v)) {
-            Some(f) => {
-                let e = known.entry(f.id.clone()).or_insert((f.clone(), 0, v.case.clone()));
-                e.1 += 1;
-            }
-            None => unlisted.push(v.clone()),
-        }
-    }
-    let overflow = total_violations as usize > violations.len();
-    // confirm unlisted violations by replaying them twice outside the explorer
-    let mut confirmed: Vec<(Violation, String)> = vec![];
     let mut exit = 0;
+    let mut unlisted_groups: Vec<(u64, Violation, String)> = vec![];
     fs::create_dir_all(format!("{}/replays", verif_dir())).ok();
-    for v in unlisted.iter() {
+    for (key, (count, cases)) in &groups {
+        if key.starts_with("OVERFLOW|") {
+            println!("NOTE: more than {} distinct violation signatures; {} violations were not classified", super::MAX_GROUPS, count);
+            println!("VIOLATION property={} replay={}/replays/UNCLASSIFIED-OVERFLOW", ctx.property, verif_dir());
+            exit = exit.max(1);
+            continue;
+        }
+        let v = &cases[0];
+        if let Some(f) = findings.iter().find(|f| finding_matches(f, &ctx.property, v)) {
+            let e = known.entry(f.id.clone()).or_insert((f.clone(), 0, v.case.clone()));
+            e.1 += count;
+            continue;
+        }
+        // confirm by replaying twice outside the explorer
         let mut reproduced = true;
         let mut supported = true;
         for _ in 0..2 {
@@ -176,54 +176,54 @@ fn finish(ctx: &Ctx, prop: &props::Prop, seed: i64) -> i32 {
         let body = json!({
             "property": ctx.property, "family": v.family, "case": v.case,
             "signature": v.fail.sig, "message": v.fail.msg,
+            "cases_with_this_signature": count,
+            "more_cases": cases.iter().skip(1).map(|c| c.case.clone()).collect::<Vec<_>>(),
             "tree_hash": env!("VERIF_REPO_HASH"),
         });
         let text = serde_json::to_string_pretty(&body).unwrap();
-        let name = format!("{}-{:016x}.json", ctx.property, util::fnv64(serde_json::to_string(&json!([v.family, v.case])).unwrap().as_bytes()));
+        let name = format!(
+            "{}-{:016x}.json",
+            ctx.property,
+            util::fnv64(serde_json::to_string(&json!([v.family, v.case])).unwrap().as_bytes())
+        );
         let path = format!("{}/replays/{}", verif_dir(), name);
         fs::write(&path, text).ok();
-        confirmed.push((v.clone(), path));
-    }
-    // Report. Group unlisted violations by signature so that the output stays readable.
-    let mut by_sig: BTreeMap<String, (u64, &Violation, &String)> = BTreeMap::new();
-    for (v, path) in &confirmed {
-        let key = format!("{}|{}", v.family, serde_json::to_string(&v.fail.sig).unwrap());
-        let e = by_sig.entry(key).or_insert((0, v, path));
-        e.0 += 1;
+        unlisted_groups.push((*count, v.clone(), path));
     }
     for (id, (f, n, case)) in &known {
-        println!("KNOWN-FINDING: property={} {} {} [{} matching case(s) this run, e.g. {}]", ctx.property, id, f.what, n, truncate(&case.to_string(), 160));
-    }
-    for (_, (n, v, path)) in &by_sig {
-        println!("VIOLATION property={} replay={}", ctx.property, path);
-        println!("  family={} cases={} signature={} :: {}", v.family, n, serde_json::to_string(&v.fail.sig).unwrap(), truncate(&v.fail.msg, 400));
-    }
-    if overflow {
         println!(
-            "NOTE: {} violations in total, only the first {} were stored and classified",
-            total_violations,
-            violations.len()
+            "KNOWN-FINDING: property={} {} {} [{} matching case(s) this run, e.g. {}]",
+            ctx.property,
+            id,
+            f.what,
+            n,
+            truncate(&case.to_string(), 160)
         );
-        if unlisted.is_empty() && exit == 0 {
-            // all stored ones are known findings, but we cannot vouch for the rest
-            println!("VIOLATION property={} replay={}/replays/UNCLASSIFIED-OVERFLOW", ctx.property, verif_dir());
-            exit = 1;
-        }
     }
-    if !by_sig.is_empty() && exit == 0 {
+    for (n, v, path) in &unlisted_groups {
+        println!("VIOLATION property={} replay={}", ctx.property, path);
+        println!(
+            "  family={} cases={} signature={} :: {}",
+            v.family,
+            n,
+            serde_json::to_string(&v.fail.sig).unwrap(),
+            truncate(&v.fail.msg, 400)
+        );
+    }
+    if !unlisted_groups.is_empty() && exit == 0 {
         exit = 1;
     }
-    write_evidence(ctx, prop, seed, by_sig.values().map(|x| x.0).sum::<u64>(), &known);
+    write_evidence(ctx, prop, seed, unlisted_groups.iter().map(|x| x.0).sum::<u64>(), &known);
     let fams = ctx.families.lock().unwrap();
     let evals: u64 = fams.iter().map(|f| f.evaluations).sum();
     println!(
-        "[{}] {} tier={} families={} evaluations={} unlisted_violations={} known_findings={} wall={:.1}s",
+        "[{}] {} tier={} families={} evaluations={} unlisted_violation_groups={} known_findings={} wall={:.1}s",
         ctx.property,
         if exit == 0 { "HELD" } else if exit == 1 { "VIOLATED" } else { "MACHINERY-ERROR" },
         ctx.tier.name(),
         fams.len(),
         evals,
-        by_sig.len(),
+        unlisted_groups.len(),
         known.len(),
         ctx.start.elapsed().as_secs_f64()
     );
@@ -318,7 +318,10 @@ fn write_evidence(ctx: &Ctx, prop: &props::Prop, seed: i64, unlisted: u64, known
 
 fn replay_case(property: &str, family: &str, case: &Value) -> Option<super::CaseResult> {
     let prop = props::registry().into_iter().find(|p| p.id == property)?;
-    (prop.replay)(family, case)
+    match util::catch(|| (prop.replay)(family, case)) {
+        Ok(r) => r,
+        Err(p) => Some(Err(Fail::from_panic(&p))),
+    }
 }
 
 fn replay_file(path: &str) -> i32 {
